@@ -1,5 +1,289 @@
-//! ElfStream sessions over an instrumented, scriptable reader
+//! ElfStream sessions over an instrumented, scriptable Read+Seek.
+use crate::alloc::{measured, paused};
+use crate::elffile::*;
 use crate::exec::*;
-use serde_json::Value;
-pub struct StreamSession {}
-pub fn stream_op(_x: &mut Exec, _op: &Value) -> Vec<Value> { unimplemented!() }
+use crate::proj::*;
+use elf::endian::{AnyEndian, BigEndian, EndianParse, LittleEndian};
+use elf::note::Note;
+use elf::ElfStream;
+use serde_json::{json, Value};
+use std::cell::RefCell;
+use std::io::{Error, ErrorKind, Read, Seek, SeekFrom};
+use std::rc::Rc;
+
+#[derive(Default)]
+pub struct Ctl {
+    pub log: Vec<Value>,
+    pub calls: u64,                  // I/O calls made so far on this reader (reads + seeks)
+    pub faults: Vec<(u64, String)>,  // (absolute I/O call index, kind): error | eof | short | interrupted
+    pub perm_from: Option<u64>,      // every I/O call from this index on fails
+    pub chunk: String,               // full | one | rand
+    pub rng: u64,
+    pub hard_fault: bool,            // a hard fault (error / premature EOF) was delivered since last reset
+}
+
+pub struct ScriptedReader {
+    pub data: &'static [u8],
+    pub pos: u64,
+    pub ctl: Rc<RefCell<Ctl>>,
+}
+
+fn next_rand(c: &mut Ctl) -> u64 {
+    c.rng ^= c.rng << 13;
+    c.rng ^= c.rng >> 7;
+    c.rng ^= c.rng << 17;
+    c.rng
+}
+
+impl ScriptedReader {
+    fn fault_now(c: &mut Ctl) -> Option<String> {
+        let idx = c.calls;
+        c.calls += 1;
+        if let Some(p) = c.perm_from {
+            if idx >= p {
+                return Some("error".into());
+            }
+        }
+        if let Some(k) = c.faults.iter().position(|(i, _)| *i == idx) {
+            return Some(c.faults[k].1.clone());
+        }
+        None
+    }
+}
+
+impl Read for ScriptedReader {
+    fn read(&mut self, buf: &mut [u8]) -> std::io::Result<usize> {
+        paused(|| self.read_inner(buf))
+    }
+}
+impl ScriptedReader {
+    fn read_inner(&mut self, buf: &mut [u8]) -> std::io::Result<usize> {
+        let mut c = self.ctl.borrow_mut();
+        let f = Self::fault_now(&mut c);
+        let want = buf.len();
+        let avail = (self.data.len() as u64).saturating_sub(self.pos) as usize;
+        match f.as_deref() {
+            Some("error") => {
+                c.hard_fault = true;
+                c.log.push(json!({"op":"read","at":self.pos,"want":want,"got":-1,"f":"error"}));
+                return Err(Error::new(ErrorKind::Other, "injected"));
+            }
+            Some("eof") => {
+                if want > 0 { c.hard_fault = true; }
+                c.log.push(json!({"op":"read","at":self.pos,"want":want,"got":0,"f":"eof"}));
+                return Ok(0);
+            }
+            Some("interrupted") => {
+                c.log.push(json!({"op":"read","at":self.pos,"want":want,"got":-2,"f":"interrupted"}));
+                return Err(Error::new(ErrorKind::Interrupted, "injected"));
+            }
+            _ => {}
+        }
+        let mut n = want.min(avail);
+        let short = f.as_deref() == Some("short");
+        if n > 1 {
+            match c.chunk.as_str() {
+                "one" => n = 1,
+                "rand" => n = 1 + (next_rand(&mut c) % n as u64) as usize,
+                _ => {}
+            }
+            if short { n = 1.max(n / 2); }
+        }
+        buf[..n].copy_from_slice(&self.data[self.pos as usize..self.pos as usize + n]);
+        c.log.push(json!({"op":"read","at":self.pos,"want":want,"got":n}));
+        self.pos += n as u64;
+        Ok(n)
+    }
+}
+
+impl Seek for ScriptedReader {
+    fn seek(&mut self, to: SeekFrom) -> std::io::Result<u64> {
+        paused(|| self.seek_inner(to))
+    }
+}
+impl ScriptedReader {
+    fn seek_inner(&mut self, to: SeekFrom) -> std::io::Result<u64> {
+        let mut c = self.ctl.borrow_mut();
+        let f = Self::fault_now(&mut c);
+        if matches!(f.as_deref(), Some("error") | Some("eof")) {
+            c.hard_fault = true;
+            c.log.push(json!({"op":"seek","f":"error"}));
+            return Err(Error::new(ErrorKind::Other, "injected"));
+        }
+        let np: i128 = match to {
+            SeekFrom::Start(o) => o as i128,
+            SeekFrom::End(o) => self.data.len() as i128 + o as i128,
+            SeekFrom::Current(o) => self.pos as i128 + o as i128,
+        };
+        if np < 0 {
+            c.log.push(json!({"op":"seek","f":"negative"}));
+            return Err(Error::new(ErrorKind::InvalidInput, "negative seek"));
+        }
+        self.pos = np as u64;
+        c.log.push(json!({"op":"seek","to":self.pos}));
+        Ok(self.pos)
+    }
+}
+
+pub enum StreamSession {
+    LE(ElfStream<LittleEndian, ScriptedReader>, Rc<RefCell<Ctl>>),
+    BE(ElfStream<BigEndian, ScriptedReader>, Rc<RefCell<Ctl>>),
+    Any(ElfStream<AnyEndian, ScriptedReader>, Rc<RefCell<Ctl>>),
+}
+
+fn take_io(ctl: &Rc<RefCell<Ctl>>) -> (Value, bool) {
+    let mut c = ctl.borrow_mut();
+    let log = std::mem::take(&mut c.log);
+    let hf = c.hard_fault;
+    c.hard_fault = false;
+    (Value::Array(log), hf)
+}
+
+fn sevent(op: &Value, res: Value, a: u64, m: u64, ctl: &Rc<RefCell<Ctl>>) -> Value {
+    let (io, hf) = take_io(ctl);
+    let mut e = event(op, res, a, m);
+    e["io"] = io;
+    e["faulted"] = json!(hf);
+    e["calls"] = json!(ctl.borrow().calls);
+    e
+}
+
+fn mres<T>(r: Result<Result<T, elf::ParseError>, String>, f: impl FnOnce(T) -> Value) -> Value {
+    match r {
+        Err(p) => panic_res(&p),
+        Ok(Err(e)) => err(&e),
+        Ok(Ok(v)) => f(v),
+    }
+}
+
+fn stream_q<E: EndianParse>(es: &mut ElfStream<E, ScriptedReader>, ctl: &Rc<RefCell<Ctl>>, op: &Value) -> Value {
+    let name = op["name"].as_str().unwrap_or("");
+    match name {
+        "shdrs_with_strtab" => {
+            let (r, a, m) = measured(|| es.section_headers_with_strtab().map(|(sh, st)| paused(|| (sh.len(), st.map(|s| strtab_proj(None, &s))))));
+            sevent(op, mres(r, |(_n, st)| json!({"out":"ok","sh_some":true,"strtab": st.unwrap_or(json!({"some":false}))})), a, m, ctl)
+        }
+        "shdr_by_name" => {
+            let nm = rd_bytes(&op["qname"]);
+            let s = String::from_utf8(nm).unwrap_or_default();
+            let (r, a, m) = measured(|| es.section_header_by_name(&s).map(|o| o.copied()));
+            sevent(op, mres(r, |o| match o { Some(h) => json!({"out":"ok","f":h.proj()}), None => json!({"out":"none"}) }), a, m, ctl)
+        }
+        "section_data" => {
+            let sh = shdr_from(&op["shdr"]);
+            let (r, a, m) = measured(|| es.section_data(&sh).map(|(d, c)| paused(|| (data_proj(None, d), c))));
+            sevent(op, mres(r, |(d, c)| json!({"out":"ok","data":d,
+                "chdr": match c { Some(c) => json!({"some":true,"f":c.proj()}), None => json!({"some":false}) }})), a, m, ctl)
+        }
+        "section_data_as_strtab" => {
+            let sh = shdr_from(&op["shdr"]);
+            let (r, a, m) = measured(|| es.section_data_as_strtab(&sh).map(|s| paused(|| strtab_proj(None, &s))));
+            sevent(op, mres(r, |s| json!({"out":"ok","str":s})), a, m, ctl)
+        }
+        "section_data_as_rels" => {
+            let sh = shdr_from(&op["shdr"]);
+            let (r, a, m) = measured(|| es.section_data_as_rels(&sh).map(|it| paused(|| it.take(ITER_CAP).map(|x| x.proj()).collect::<Vec<_>>())));
+            sevent(op, mres(r, |v| json!({"out":"ok","n":v.len(),"items":v})), a, m, ctl)
+        }
+        "section_data_as_relas" => {
+            let sh = shdr_from(&op["shdr"]);
+            let (r, a, m) = measured(|| es.section_data_as_relas(&sh).map(|it| paused(|| it.take(ITER_CAP).map(|x| x.proj()).collect::<Vec<_>>())));
+            sevent(op, mres(r, |v| json!({"out":"ok","n":v.len(),"items":v})), a, m, ctl)
+        }
+        "section_data_as_notes" | "segment_data_as_notes" => {
+            let (r, a, m) = measured(|| {
+                let it = if name == "section_data_as_notes" { es.section_data_as_notes(&shdr_from(&op["shdr"])) } else { es.segment_data_as_notes(&phdr_from(&op["phdr"])) };
+                it.map(|it| paused(|| it.take(ITER_CAP).collect::<Vec<Note<'_>>>().iter().map(|n| note_rel(n)).collect::<Vec<Value>>()))
+            });
+            sevent(op, mres(r, |v| json!({"out":"ok","n":v.len(),"items":v})), a, m, ctl)
+        }
+        "symbol_table" | "dynamic_symbol_table" => {
+            let (r, a, m) = measured(|| {
+                let t = if name == "symbol_table" { es.symbol_table() } else { es.dynamic_symbol_table() };
+                t.map(|o| o.map(|(sy, st)| paused(|| (tbl_proj(&sy), strtab_proj(None, &st)))))
+            });
+            sevent(op, mres(r, |o| match o { None => json!({"out":"none"}), Some((sy, st)) => json!({"out":"ok","sym":sy,"str":st}) }), a, m, ctl)
+        }
+        "dynamic" => {
+            let (r, a, m) = measured(|| es.dynamic().map(|o| o.map(|t| paused(|| tbl_proj(&t)))));
+            sevent(op, mres(r, |o| match o { None => json!({"out":"none"}), Some(t) => json!({"out":"ok","tbl":t}) }), a, m, ctl)
+        }
+        "symbol_version_table" => {
+            let qs: Vec<Value> = op["qs"].as_array().cloned().unwrap_or_default();
+            let (r, a, m) = measured(|| es.symbol_version_table().map(|o| o.map(|t| paused(|| symver_embedded(&t, &qs, None).0))));
+            sevent(op, mres(r, |o| match o { None => json!({"out":"none"}), Some(q) => json!({"out":"ok","qs":q}) }), a, m, ctl)
+        }
+        other => panic!("harness: unknown stream query {other}"),
+    }
+}
+
+/// notes handed out by the stream parser point into its private buffers: report name/desc by
+/// length and content checksum instead of position
+fn note_rel(n: &Note<'_>) -> Value {
+    match n {
+        Note::GnuAbiTag(t) => json!({"k":"abitag","f":t.proj()}),
+        Note::GnuBuildId(b) => json!({"k":"buildid","desc":{"len":b.0.len(),"ck":ck(b.0)}}),
+        Note::Unknown(a) => json!({"k":"any","n_type":w8(a.n_type),"name":{"len":a.name.len(),"ck":ck(a.name)},
+            "desc":{"len":a.desc.len(),"ck":ck(a.desc)},
+            "name_str": match a.name_str() { Ok(s) => json!({"out":"ok","len":s.len()}), Err(_) => json!({"out":"err"}) }}),
+    }
+}
+
+fn open_res<E: EndianParse>(es: &ElfStream<E, ScriptedReader>) -> Value {
+    json!({"out":"ok","ehdr":ehdr_proj(&es.ehdr),"sh":vec_proj(es.section_headers()),"ph":vec_proj(es.segments())})
+}
+
+fn parse_faults(v: &Value, base: u64) -> Vec<(u64, String)> {
+    v.as_array().map(|a| a.iter().map(|f| (base + f[0].as_u64().unwrap_or(0), f[1].as_str().unwrap_or("error").to_string())).collect()).unwrap_or_default()
+}
+
+pub fn stream_op(x: &mut Exec, op: &Value) -> Vec<Value> {
+    if op["op"] == "sopen" {
+        let data = x.buf(op, "file");
+        let es = op["es"].as_str().unwrap_or("Any");
+        let rd = &op["reader"];
+        let ctl = Rc::new(RefCell::new(Ctl {
+            chunk: rd["chunk"].as_str().unwrap_or("full").to_string(),
+            rng: rd["seed"].as_u64().unwrap_or(1) | 1,
+            faults: parse_faults(&rd["faults"], 0),
+            perm_from: rd["perm_from"].as_u64(),
+            ..Default::default()
+        }));
+        x.stream = None;
+        macro_rules! open_as {
+            ($E:ty, $V:ident) => {{
+                let reader = ScriptedReader { data, pos: 0, ctl: ctl.clone() };
+                let (r, a, m) = measured(|| ElfStream::<$E, _>::open_stream(reader));
+                match r {
+                    Err(p) => sevent(op, panic_res(&p), a, m, &ctl),
+                    Ok(Err(e)) => sevent(op, err(&e), a, m, &ctl),
+                    Ok(Ok(s)) => { let v = open_res(&s); x.stream = Some(StreamSession::$V(s, ctl.clone())); sevent(op, v, a, m, &ctl) }
+                }
+            }};
+        }
+        let ev = match es {
+            "LE" | "Native" => open_as!(LittleEndian, LE),
+            "BE" => open_as!(BigEndian, BE),
+            _ => open_as!(AnyEndian, Any),
+        };
+        return vec![ev];
+    }
+    // new fault schedule for the calls that follow (indices relative to the I/O calls made so far)
+    let set_faults = |ctl: &Rc<RefCell<Ctl>>| {
+        if let Some(f) = op.get("faults") {
+            let mut c = ctl.borrow_mut();
+            let base = c.calls;
+            c.faults = parse_faults(f, base);
+            c.perm_from = op.get("perm_from").and_then(|v| v.as_u64()).map(|v| base + v);
+        }
+        if let Some(ch) = op.get("chunk").and_then(|v| v.as_str()) {
+            ctl.borrow_mut().chunk = ch.to_string();
+        }
+    };
+    match &mut x.stream {
+        None => vec![event(op, json!({"out":"closed"}), 0, 0)],
+        Some(StreamSession::LE(s, c)) => { set_faults(c); vec![stream_q(s, c, op)] }
+        Some(StreamSession::BE(s, c)) => { set_faults(c); vec![stream_q(s, c, op)] }
+        Some(StreamSession::Any(s, c)) => { set_faults(c); vec![stream_q(s, c, op)] }
+    }
+}
